@@ -97,6 +97,16 @@ CHECKS = {
    note="Caveat (DESIGN.md 5.C13): no time axis and no fault kinds; decoders sampled at boundaries; the simulated interconnect "
         "part is covered by C14's bus accesses to the finalized SoC.",
    tech="seeded search over request-order histories of shared allocators (deterministic, no faults), invariant check after every call"),
+ "C14": dict(cat="exploration", ref="DESIGN.md 5.C14",
+   text="One real SoCMini build per run from a seeded configuration (bus standard wishbone/axi-lite/axi, shared/crossbar, CSR "
+        "paging, 1-3 peripherals with seeded register sets, fixed CSR locations, RAM regions, ROM image through get_mem_data "
+        "with either endianness, constants); csr.h/mem.h/soc.h/csr.json/csr.csv/csr.svd written by the real Builder, read back "
+        "and cross-checked; a Wishbone master (through the real add_adapter chain) performs, for every register, the access "
+        "sequence parsed from the GENERATED accessor: exactly the addressed storage must take the unique value, every status "
+        "must read back its driven value; memory regions written/read at first/last word; ROM read back byte by byte.",
+   note="Configuration swarm without fault kinds (stated). Known findings C14-F1 (8-bit CSR bus addresses) and C14-F2 (little "
+        "ordering accessors) excluded by region; interrupt numbers need a CPU and are not covered.",
+   tech="deterministic simulation of whole generated SoCs over a configuration swarm, accessor-driven bus accesses, export cross-check"),
  "C15": dict(cat="fault_enumeration", ref="DESIGN.md 5.C15",
    text="Real EventManager (1-12 sources: pulse, process rising/falling, level) behind a real CSRBank (8/32-bit) and SharedIRQ "
         "over two managers; literal trigger waveforms and software accesses; a per-source model (set wins over clear, level "
